@@ -31,6 +31,9 @@ pub enum Req {
     Add { size: usize, align: usize, uninit: bool, name: Option<u8>, #[serde(default)] alt_spelling: bool },
     /// Remove one of the current data (carried over or pending), chosen by monotone index.
     Remove { sel: u16 },
+    /// Remove up to `count` of the current data in one step, starting at the selected one and
+    /// walking the current list backwards (so not in increasing id order).
+    RemoveBurst { sel: u16, count: u8 },
     /// Close the variant.
     Close { strat: Strat },
 }
@@ -264,6 +267,31 @@ pub fn run_native(h: &History) -> (Trace, Option<RecordDefinition<NativeDatumDet
                     }
                 }
             }
+            Req::RemoveBurst { sel, count } => {
+                let current = guarded!(b.get_current_data().collect::<Vec<_>>());
+                if current.is_empty() {
+                    continue;
+                }
+                let start = pick(*sel, current.len());
+                for step in 0..(*count as usize).min(current.len()) {
+                    let id = current[(start + current.len() - step) % current.len()];
+                    let k = datum_index(id);
+                    match guarded!(b.remove_datum(id)) {
+                        Ok(()) => {
+                            if let Some(pos) = pending_added.iter().position(|&x| x == k) {
+                                pending_added.remove(pos);
+                                trace.removed_while_pending += 1;
+                            } else {
+                                pending_removed.push(k);
+                            }
+                        }
+                        Err(e) => {
+                            trace.panicked = Some(format!("valid remove rejected: {}", e));
+                            return (trace, None);
+                        }
+                    }
+                }
+            }
             Req::Close { strat } => {
                 let n_ids = trace.n_ids;
                 if let Err(e) = do_close(
@@ -336,7 +364,7 @@ pub fn strat_strategy() -> impl Strategy<Value = Strat> {
 /// (size, align): power-of-two alignment 1..16, size a multiple of the alignment (what Rust
 /// types look like), zero included.
 pub fn shape_strategy() -> impl Strategy<Value = (usize, usize)> {
-    (0usize..5, prop_oneof![
+    (prop_oneof![12 => 0usize..5, 1 => 5usize..8], prop_oneof![
         30 => 0usize..=6,
         5 => 7usize..=12,
         3 => 13usize..=40,
@@ -351,10 +379,11 @@ pub fn shape_strategy() -> impl Strategy<Value = (usize, usize)> {
 
 pub fn req_strategy(strats: BoxedStrategy<Strat>) -> impl Strategy<Value = Req> {
     prop_oneof![
-        10 => (shape_strategy(), prop::bool::weighted(0.3), prop::option::weighted(0.4, 0u8..6), prop::bool::weighted(0.25))
+        20 => (shape_strategy(), prop::bool::weighted(0.3), prop::option::weighted(0.4, 0u8..6), prop::bool::weighted(0.25))
             .prop_map(|((size, align), uninit, name, alt_spelling)| Req::Add { size, align, uninit, name, alt_spelling }),
-        4 => any::<u16>().prop_map(|sel| Req::Remove { sel }),
-        4 => strats.prop_map(|strat| Req::Close { strat }),
+        8 => any::<u16>().prop_map(|sel| Req::Remove { sel }),
+        1 => (any::<u16>(), 2u8..60).prop_map(|(sel, count)| Req::RemoveBurst { sel, count }),
+        8 => strats.prop_map(|strat| Req::Close { strat }),
     ]
 }
 
@@ -375,7 +404,16 @@ pub fn history_strategy(max_len: usize) -> BoxedStrategy<History> {
         strat_strategy(),
     )
         .prop_map(|(reqs, final_strat)| History { reqs, final_strat });
-    prop_oneof![15 => mixed, 7 => mono, 2 => long].boxed()
+    // very long: hundreds of data (more than 256 datum ids), wide variants, bursts of removals
+    let add_heavy = prop_oneof![
+        30 => (shape_strategy(), prop::bool::weighted(0.3), prop::bool::weighted(0.25))
+            .prop_map(|((size, align), uninit, alt_spelling)| Req::Add { size: size.min(64 * align), align, uninit, name: None, alt_spelling }),
+        2 => any::<u16>().prop_map(|sel| Req::Remove { sel }),
+        1 => (any::<u16>(), 2u8..60).prop_map(|(sel, count)| Req::RemoveBurst { sel, count }),
+        1 => strat_strategy().prop_map(|strat| Req::Close { strat }),
+    ];
+    let very_long = (prop::collection::vec(add_heavy, 270..420), strat_strategy()).prop_map(|(reqs, final_strat)| History { reqs, final_strat });
+    prop_oneof![60 => mixed, 28 => mono, 8 => long, 1 => very_long].boxed()
 }
 
 // ---------------------------------------------------------------------------------------------
